@@ -1484,6 +1484,8 @@ func TestVerif_C07(t *testing.T) {
 	st.passwordChecker = htChecker
 	// ---------------- the same backends over time: the file is edited between logins (c07b.go)
 	fcases, fidx := c07BackendHistories(t, e, res, rng)
+	// ---------------- logins that overlap in time against a slow, scripted, counting backend (c07conc.go; its own case file CasesC07c.v)
+	c07ConcurrentLogins(t, e, res, rng)
 
 	var sb strings.Builder
 	sb.WriteString(coqCaseHeader)
